@@ -113,6 +113,9 @@ def closure_def_of(term):
     t = norm(term)
     if t[0] == "agg" and t[1].startswith("closure:"):
         return t[1][len("closure:"):]
+    # a named function used where a closure could stand (`.map(render_lease)`): its body plays the closure's role
+    if t[0] == "const" and isinstance(t[1], tuple) and t[1] and t[1][0] == "fn" and isinstance(t[1][1], str):
+        return t[1][1]
     return None
 
 
